@@ -8,7 +8,8 @@ the documented cache diagnostics.  Failing histories are minimised (no proper su
 the cache layer that served the stale value (found by disabling one layer at a time).
 
 Alphabet: turn(agent in {A,B}, text in {apple, pear fig}) | relabel node | upsert edge (same id, new weight) |
-upsert edge (same id, redirected) | add edge | add episode(owner A|B) | toggle kill switch | config change
+upsert edge (same id, redirected) | add edge | add episode(owner A|B; fresh id) | add episode under an id the index already
+holds (a revised episode: same id, other text / vector / timestamp / importance) | toggle kill switch | config change
 (k_retrieval, sim_threshold, ranking, owner_scope, exact_recent_days, t1.radius_cap, tiers) | cache clock += ttl+1
 | logical day += 40 | logical clock +- 12 h | scheduler slice on/off | switch to an independent second state with the
 same graph ids / sizes.
@@ -43,12 +44,20 @@ if not hasattr(orch_core, "make_plan_bundle"):
 
 # ------------------------------------------------------------------ alphabet
 TURNS = [("T", a, x) for a in ("A", "B") for x in ("apple", "pear fig")]
-EDITS = [("RELABEL",), ("EDGE_W",), ("EDGE_DST",), ("EDGE_NEW",), ("EP", "A"), ("EP", "B")]
+EDITS = [("RELABEL",), ("EDGE_W",), ("EDGE_DST",), ("EDGE_NEW",), ("EP", "A"), ("EP", "B"), ("EPR", "A")]
+# EPR(owner): a memory addition whose id is already present in the index (the first stored episode of that owner is
+# added again with other content - what a revision of an episode looks like to the index).  The statement quantifies over
+# memory additions, not over additions with fresh ids: whether the index appends, replaces or ignores the re-added copy
+# is its own business, but whatever it then answers must not depend on the caches.  The counterpart of the graph letters
+# EDGE_W / EDGE_DST / RELABEL (same id, same counts, other content) on the memory side.
+EP_CONTENT = ("apple pear fig", 0.5, "c1", 1.0)       # what EP adds (fresh id) and EPR re-adds (present id)
+EPR_ALT_CONTENT = ("plum", 20.0, "c2", 0.0)           # second EPR on the same id: other content again
 # the graph evolution layer (observe / tick / merge / promotion) rewrites the GEL edge weights in state["graph"] between
 # turns; GEL_W is one such rewrite applied directly (asymmetric, so that a rerank that reads the edges changes order).
 # It is not a letter of the BFS alphabet (inert unless the hybrid rerank is on); the sweep leg runs [M, turn, GEL_W, turn]
-# under every mode entry M.
+# under every mode entry M.  The sweep leg also runs [M, turn, EPR, turn] (an episode re-added under its id) under every M.
 GEL_EDIT = ("GEL_W",)
+EPR_EDIT = ("EPR", "A")
 CFGS = [("CFG", "k1"), ("CFG", "thr"), ("CFG", "rank"), ("CFG", "owner"), ("CFG", "days"), ("CFG", "radius"),
         ("CFG", "tiers"), ("CFG", "tiers_rev")]
 MISC = [("KILL",), ("CLK",), ("DAY",), ("HALFDAY",), ("SWITCH",), ("SCHED",)]
@@ -471,7 +480,16 @@ def execute(history, cache_cfg, caches_on, scratch, extra_off=None):
                         ge[k_]["weight"] = (w_ if ge[k_]["weight"] != w_ else 0.25)
             elif kind == "EP":
                 k = len(st["mem_index"]._eps) + 1
-                st["mem_index"].add(W._ep("new%d" % k, op[1], "apple pear fig", 0.5, "c1", 1.0))
+                while any(str(e.get("id")) == "new%d" % k for e in st["mem_index"]._eps):
+                    k += 1   # an index that replaces a re-added episode does not grow: keep the id fresh all the same
+                st["mem_index"].add(W._ep("new%d" % k, op[1], *EP_CONTENT))
+            elif kind == "EPR":
+                mine = [e for e in st["mem_index"]._eps if e.get("owner") == op[1]]
+                if not mine:
+                    raise HarnessError("EPR: no stored episode of owner %r" % (op[1],))
+                eid = mine[0]["id"]
+                cur_text = [e for e in mine if e["id"] == eid][-1].get("text")
+                st["mem_index"].add(W._ep(eid, op[1], *(EP_CONTENT if cur_text != EP_CONTENT[0] else EPR_ALT_CONTENT)))
             elif kind == "CFG":
                 ch = CFG_CHANGES[op[1]]
                 dyn = W.deep_merge(dyn, ch)
@@ -552,7 +570,7 @@ def classify(history, cache_cfg, scratch):
         if swept and op[0] == "CFG":
             kinds.append("CFG[%s]" % _section(op[1]))   # sweep leg: one signature per configuration section, not per value
         else:
-            kinds.append(op[0] if op[0] not in ("CFG", "EP") else "%s(%s)" % (op[0], op[1]))
+            kinds.append(op[0] if op[0] not in ("CFG", "EP", "EPR") else "%s(%s)" % (op[0], op[1]))
     if len(set(agents)) > 1:
         kinds.append("agent_switch")
     if len(set(texts)) > 1:
@@ -567,8 +585,9 @@ def classify(history, cache_cfg, scratch):
 
 
 def is_minimal(history, cache_cfg, scratch):
-    """No proper sub-history fails, and neither does the variant with one agent / one text throughout
-    (those variants are in the enumeration themselves and are reported there)."""
+    """No proper sub-history fails, and neither does the variant with one agent / one text throughout, nor the variant
+    in which a re-added episode gets a fresh id instead (those variants are in the enumeration themselves and are
+    reported there; a failure that survives the fresh id has nothing to do with the re-use of the id)."""
     cands = []
     for i in range(len(history)):
         sub = history[:i] + history[i + 1:]
@@ -581,6 +600,9 @@ def is_minimal(history, cache_cfg, scratch):
     if len({o[2] for o in turns}) > 1:
         for x in sorted({o[2] for o in turns}):
             cands.append([([o[0], o[1], x] if o[0] == "T" else o) for o in history])
+    for i, o in enumerate(history):
+        if o[0] == "EPR":
+            cands.append(history[:i] + [["EP", o[1]]] + history[i + 1:])
     for sub in cands:
         d, leak, _, _ = fails(sub, cache_cfg, scratch)
         if d is not None or leak:
@@ -645,6 +667,12 @@ def _sweep_worker(chunk, st: Stats, scratch):
             st.add("sweep_histories")
             if _stage_obs(off_g[-1]) != _stage_obs(base_off[-1]):
                 st.distinct("sweep_params_biting", "GEL_W under " + m)
+            # the stored episodes are an input of every retrieval mode (cosine tiers, lexical fusion, MMR, rerank, sharded
+            # search): an episode re-added under its id between two turns
+            off_r = _judge(pre + [t, list(EPR_EDIT), t], cache_cfg, st, scratch)
+            st.add("sweep_histories")
+            if _stage_obs(off_r[-1]) != _stage_obs(base_off[-1]):
+                st.distinct("sweep_params_biting", "EPR under " + m)
         for p in params:
             h = pre + [t, ["CFG", p], t]
             off = _judge(h, cache_cfg, st, scratch)
@@ -704,7 +732,7 @@ def run(run: Run) -> None:
     run.notes["depth"] = depth
     run.notes["alphabet_size"] = len(OPS)
     run.notes["histories"] = len(items)
-    run.rule = ("every history of <=%d operations over a %d-letter alphabet (turns, graph edits, memory additions, kill switch, "
+    run.rule = ("every history of <=%d operations over a %d-letter alphabet (turns, graph edits, memory additions under a fresh id and under an id the index already holds, kill switch, "
                 "config changes, cache-clock / logical-day advances, state switch) ending in a turn and containing an earlier turn, "
                 "x 3 cache configurations (LRU+TTL stage caches, byte-bounded stage caches, turn-level manager alone), plus the <=3-operation "
                 "histories under the turn-level manager with cache_bust_mode none (version-keyed only); each executed with caches on and off "
@@ -724,7 +752,7 @@ def run(run: Run) -> None:
     run.rule += ("; plus the configuration sweep: for each of %d catalogued single-parameter changes P (the t1.* / t2.* keys the "
                  "validator accepts, the perf.* and scheduler knobs the two stages read, at zero / one / extreme values; keys left out "
                  "are listed with reasons) the histories [turn, P, turn] under both stage-cache kinds and [M, turn, turn], "
-                 "[M, turn, P, turn] for M over %s; same twin oracle; a change counts as exercised only where it alters the "
+                 "[M, turn, P, turn] (and, with the GEL edge rewrite resp. an episode re-added under its id in place of P, [M, turn, GEL_W, turn] and [M, turn, EPR, turn]) for M over %s; same twin oracle; a change counts as exercised only where it alters the "
                  "caches-off result (distinct_sweep_params_biting)"
                  % (len(SWEEP_PARAMS), "the whole catalogue x both stage-cache kinds x both texts" if run.thorough else
                     "the %d mode-selecting entries with P addressing the same stage (LRU+TTL caches, text 'pear fig')" % len(SWEEP_MODES)))
@@ -735,6 +763,10 @@ def run(run: Run) -> None:
                "t1_frontier_evicted / t1_dedup_hits / t1_visited_evicted) - a cached result carries those of the turn that computed it")
     run.assume("a turn in which the engine raises is an observation like any other (compared between the twin runs); a combination of changes "
                "the validator refuses is skipped in both twin runs and counted")
+    run.assume("a re-added episode (EPR) re-uses the id of the first stored episode of owner A, with the content of a fresh addition on the first "
+               "re-add and a second content on the next; what the index does with the earlier copy (append / replace) is not judged, only that "
+               "caches on and off agree afterwards; a failing history that still fails with a fresh id in place of the re-used one is reported "
+               "under the fresh-id history only")
     run.assume("approved delta lists are empty in these worlds (rule-based plans carry no deltas); apply still bumps the version and invalidates")
     run.assume("TTL expiry is driven through injected clocks for the LRU+TTL stage caches and the turn-level manager; byte-bounded caches have no TTL")
 
